@@ -1169,7 +1169,9 @@ func c41documented(c *Ctx, m *Module) {
 	}
 	for _, k := range sortedKeys(c41docOther) {
 		if !used[k] {
-			c.Undecided(rule, k+" (table)", token.NoPos, m, "entry matches no documented field (stale table entry)")
+			// a struct comment that was reworded or removed is not a defect of the code:
+			// the exception is simply unused on this tree
+			c.OK(rule, k+" (table)", token.NoPos, m, "listed exception has no matching struct comment on this tree (unused)")
 		}
 	}
 	c.Floor(rule, n, c41floorDoc)
